@@ -241,7 +241,7 @@ fn search_positions(roots: &Value, tags: &str, seed: u64, per_root: u64, plies: 
 }
 
 pub fn record_search(opts: &Opts) -> i32 {
-    let roots = read_json_file(&opts.str("roots", "/verif/spec/roots.json"));
+    let roots = read_json_file(&opts.str("roots", &crate::util::default_roots()));
     let seed = opts.num("seed", 1);
     let shard = opts.num("shard", 0);
     let shards = opts.num("shards", 1);
@@ -425,7 +425,7 @@ pub fn record_score(opts: &Opts) -> i32 {
 
 /// searches that are given enough polls for very many deepening passes on O(1) trees (C07)
 pub fn stress_search(opts: &Opts) -> i32 {
-    let roots = read_json_file(&opts.str("roots", "/verif/spec/roots.json"));
+    let roots = read_json_file(&opts.str("roots", &crate::util::default_roots()));
     let tags = opts.str("tags", "tiny");
     let polls = opts.num("polls", 70000);
     let mut out = std::io::BufWriter::new(std::fs::File::create(opts.str("out", "stress.ndjson")).unwrap());
